@@ -51,6 +51,9 @@ JudgeOut(t, R, C, RR, o) ==
   ELSE IF b.err # "" THEN "Legal:" \o b.err
   ELSE IF b.mx > OLim(o) THEN "Legal:StackLimit"
   ELSE IF OEnd(o) = 1 /\ ~b.done THEN "Legal:no-endchar"
+  \* TN5177 4.3: endchar "must be the last operator in a character's outline" -- a Type 2 rewriting of a
+  \* charstring that ended with it must end with it too (CFF2 has no endchar: OEnd covers CFF2 -> CFF)
+  ELSE IF PFmt(t.progs[OIdx(o)]) = "cff" /\ a.done /\ ~b.done THEN "Legal:no-endchar"
   ELSE IF C[k][OIdx(o)] # C[k][1] \/ a.seac # b.seac THEN "SamePath"
   ELSE IF ~WidthOK(t, a, b, o) THEN "SameWidth"
   ELSE IF \E r \in 1..ONl(o) : ~SamePath(RR[r][1], RR[r][OIdx(o)], OStrict(o) = 1) THEN "SamePathRegion"
